@@ -223,12 +223,19 @@ class Sim:
 
     def _switch(self, me: int | None) -> None:
         """Pass the baton to a drawn runnable rank and wait until it comes back to `me`."""
+        live = me is not None and self.state[me] != 'done'
+        if self.aborted:
+            if live:
+                raise SimAbort()
+            return
         cands = [r for r in range(self.world) if self._runnable(r)]
         if not cands:
             if all(s == 'done' for s in self.state):
                 self.finished.set()
                 return
             self._deadlock()
+            if live:
+                raise SimAbort()
             return
         nxt = cands[self._choice() % len(cands)]
         if nxt == me:
